@@ -765,12 +765,28 @@ static void makeAlias(char *namestr, char *hostsstr)
         _errormsg("bad alias");
 }
 
+static bool _validHostlist(char *str)
+{
+    hostlist_t hl = hostlist_create(str);
+
+    if (hl == NULL)
+        return false;
+    hostlist_destroy(hl);
+    return true;
+}
+
 static void makeNode(char *nodestr, char *devstr, char *plugstr)
 {
     Device *dev = dev_findbyname(devstr);
 
     if (dev == NULL)
         _errormsg("unknown device");
+
+    /* hostlist_create() returns NULL on a malformed range expression */
+    if (!_validHostlist(nodestr))
+        _errormsg("invalid node list");
+    if (plugstr && !_validHostlist(plugstr))
+        _errormsg("invalid plug list");
 
     /* plugstr can be NULL - see comment in pluglist.h */
     switch (pluglist_map(dev->plugs, nodestr, plugstr)) {
